@@ -3,7 +3,8 @@
   every run into `Gen.*`) against the calendar of `Base/Calendar.lean`: every entry of every table,
   by `decide +kernel` over the whole table, lifted to the integer index interval.
 -/
-import DateutilVerif.Model.RRule
+import DateutilVerif.Generated.Tables
+import DateutilVerif.Base.Calendar
 import DateutilVerif.Proofs.Range
 
 namespace RRule.Tables
